@@ -3,7 +3,6 @@ package c09
 import (
 	"fmt"
 	"math/big"
-	"os"
 	"strings"
 
 	sdkmath "cosmossdk.io/math"
@@ -140,6 +139,12 @@ func (w *histWorld) genEthFee(base *big.Int, admissible bool) ethFee {
 	rnd := func(n int) *big.Int { return big.NewInt(int64(r.Intn(n))) }
 	// upTo(x) is uniform in [0, x]
 	upTo := func(x *big.Int) *big.Int { return r.BigBelow(new(big.Int).Add(x, big1)) }
+	if admissible && bound.Sign() == 0 {
+		// with a zero bound a zero effective price is refused for carrying no fee coin: offer a positive price
+		f.Price = big.NewInt(int64(1 + r.Intn(1000)))
+		f.Cap, f.Tip, f.Shape = f.Price, f.Price, "positive-over-zero-bound"
+		return f
+	}
 	if f.Type < 2 {
 		k := r.Intn(10)
 		if admissible {
@@ -212,6 +217,13 @@ func (w *histWorld) genCosmosFee(base *big.Int, g uint64, admissible bool) (*big
 		gap.SetInt64(0)
 	}
 	bg := mulU(bound, g)
+	if admissible && bound.Sign() == 0 {
+		fee := mulU(big.NewInt(int64(1+r.Intn(5))), g)
+		if r.Bool() {
+			return fee, nil, "positive-over-zero-bound"
+		}
+		return fee, big.NewInt(int64(1 + r.Intn(1000))), "positive-over-zero-bound,tip=positive"
+	}
 	k := r.Intn(9)
 	if admissible {
 		k = 1 + r.Intn(2)
@@ -444,10 +456,18 @@ func (w *histWorld) randomTx(base *big.Int, admissible bool) *txPlan {
 	case k < 14 && w.contract != nil:
 		return w.ethPlan(w.sender(), w.contract, r.Bytes(r.Intn(40)), 120000, w.genEthFee(base, admissible), "contract-call", base)
 	default:
-		g := uint64(vh.Pick(r, []int{150000, 200000, 200000, 333333, 400000}))
+		g := w.cosmosGas(uint64(vh.Pick(r, []int{150000, 200000, 200000, 333333, 400000})))
 		fee, tip, shape := w.genCosmosFee(base, g, admissible)
 		return w.cosmosPlan(w.sender(), w.recipient(), g, fee, tip, shape, base)
 	}
+}
+
+// cosmosGas caps a Cosmos gas limit at the block max gas: the SDK refuses larger limits before any fee logic.
+func (w *histWorld) cosmosGas(g uint64) uint64 {
+	if w.v.MaxGas > 0 && g > uint64(w.v.MaxGas) {
+		return uint64(w.v.MaxGas)
+	}
+	return g
 }
 
 func burnerRuntime() []byte {
@@ -479,6 +499,13 @@ func (w *histWorld) compose(base *big.Int, height int64) (string, []*txPlan) {
 	if w.v.ForceFull {
 		return "exact-limit", w.exactEth(uint64(L), base)
 	}
+	if w.v.Genesis && w.blocks == 0 {
+		// block 1 of a fresh chain: the genesis base fee is in force and may lie below floor(min gas price)
+		for i := r.Range(10, 20); i > 0; i-- {
+			plans = append(plans, w.randomTx(base, r.Chance(1, 3)))
+		}
+		return "genesis-many", plans
+	}
 	// deploy the burner contract once where a creation fits
 	if w.contract == nil && w.blocks == 1 && (L < 0 || L >= 1_000_000) {
 		s := w.eoas[0]
@@ -498,7 +525,7 @@ func (w *histWorld) compose(base *big.Int, height int64) (string, []*txPlan) {
 		case "single":
 			plans = append(plans, w.randomTx(base, true))
 		case "cosmos-underpriced":
-			g := uint64(200000)
+			g := w.cosmosGas(200000)
 			bound := maxBig(base, w.minFloor)
 			fee := dec1(mulU(bound, g))
 			plans = append(plans, w.cosmosPlan(w.sender(), w.recipient(), g, fee, nil, "fee=bound*gas-1", base))
@@ -553,7 +580,7 @@ func (w *histWorld) compose(base *big.Int, height int64) (string, []*txPlan) {
 		if limit > 250000 {
 			plans = w.exactEth(limit-4*uint64(r.Range(5000, 20000)), base)
 		}
-		g := uint64(200000)
+		g := w.cosmosGas(200000)
 		fee, tip, shape := w.genCosmosFee(base, g, true)
 		plans = append(plans, w.cosmosPlan(w.sender(), w.recipient(), g, fee, tip, shape, base))
 		plans = append(plans, w.randomTx(base, true))
@@ -600,10 +627,15 @@ func feeCharged(res *abci.ExecTxResult) (*big.Int, bool) {
 	return nil, false
 }
 
-// blockGasFromResults recomputes what the block gas meter consumed from the consensus results:
-// every transaction that was run adds the consumption of its own meter up to that meter's limit
-// (baseapp.runTx: BlockGasMeter().ConsumeGas(ctx.GasMeter().GasConsumedToLimit())), failed ones included;
-// transactions skipped for "no block gas left" and undecodable ones report 0/0.
+// blockGasFromResults recomputes what the block gas meter consumed from the consensus results.
+// baseapp.runTx charges the block meter, for every transaction it starts (failed ones included), with
+// ctx.GasMeter().GasConsumedToLimit() of the transaction's own meter:
+//   - a transaction that got a limited meter from the ante handler (GasWanted > 0): min(GasUsed, GasWanted);
+//   - an Ethereum transaction refused by the ante handler (infinite meter, reported as GasWanted -1): GasUsed;
+//   - a transaction refused before, or by a panic inside, the ante handler never replaced runTx's own
+//     infinite meter (GasWanted reported as 0): GasUsed (what reading the consensus params cost);
+//   - a Cosmos transaction with gas limit 0 (GasWanted 0, out of gas, sdk/11): nothing up to its limit of 0;
+//   - skipped for "no block gas left" and undecodable transactions report 0/0 and add nothing.
 func blockGasFromResults(rs []*abci.ExecTxResult) uint64 {
 	var sum uint64
 	for _, res := range rs {
@@ -611,7 +643,10 @@ func blockGasFromResults(rs []*abci.ExecTxResult) uint64 {
 		if res.GasUsed < 0 {
 			u = 0
 		}
-		wanted := uint64(res.GasWanted) // -1 (no limit: Ethereum tx refused by the ante handler) => MaxUint64
+		wanted := uint64(res.GasWanted) // -1 => MaxUint64
+		if res.GasWanted == 0 && !(res.Codespace == "sdk" && res.Code == 11) {
+			wanted = ^uint64(0)
+		}
 		if u > wanted {
 			u = wanted
 		}
@@ -644,7 +679,7 @@ func runHistory(run *vh.Run, rep *reporter, v histVariant, world int, nBlocks in
 	var c *vh.Chain
 	if cr := guard(func() { c = vh.NewChain(cfg) }); cr.Panicked {
 		m := nextBaseFee(v.BaseFee, v.MaxGas, 0, w.minFloor)
-		rep.violation(panicClass(cr.Msg, m), label, map[string]any{"level": "history", "variant": v, "at": "InitChain / empty first block", "panic": cr.Msg, "stack": cr.Stack})
+		rep.violation("history/"+v.Name, panicClass(cr.Msg, m, nil), label, map[string]any{"level": "history", "variant": v, "at": "InitChain / empty first block", "panic": cr.Msg, "stack": cr.Stack})
 		run.Count("hist_chains_halted", 1)
 		return
 	}
@@ -656,8 +691,12 @@ func runHistory(run *vh.Run, rep *reporter, v histVariant, world int, nBlocks in
 		inForce = c.BaseFee()
 		// block 1 was an empty block run by the driver: check it as well
 		m := nextBaseFee(v.BaseFee, v.MaxGas, 0, w.minFloor)
-		if m.Defined && inForce.Cmp(m.Next) != 0 {
-			rep.violation("history-basefee-mismatch:param:"+m.Side, label, map[string]any{"level": "history", "variant": v, "height": 1, "txs": 0,
+		if alt := unlimitedReading(v.BaseFee, v.MaxGas, 0, w.minFloor); m.Defined && inForce.Cmp(m.Next) != 0 && !(alt != nil && inForce.Cmp(alt) == 0) {
+			sfx := m.Side
+			if m.Clamped {
+				sfx += ":min-price-clamp"
+			}
+			rep.violation("history/"+v.Name, "history-basefee-mismatch:param:"+sfx, label, map[string]any{"level": "history", "variant": v, "height": 1, "txs": 0,
 				"base_fee_in_force": v.BaseFee.String(), "expected_next_base_fee": m.Next.String(), "observed_param": inForce.String()})
 		}
 	}
@@ -678,17 +717,26 @@ func runHistory(run *vh.Run, rep *reporter, v histVariant, world int, nBlocks in
 			return out
 		}
 		var br *vh.BlockResult
-		cr := guard(func() { br = c.NextBlock(txs, &vh.BlockOpt{NoSentinel: true}) })
+		var sdkMeter uint64 // the SDK block gas meter itself, read before Commit: used only to validate the recomputation below
+		cr := guard(func() {
+			br = c.NextBlock(txs, &vh.BlockOpt{NoSentinel: true, NoCommit: true})
+			if br.Err == nil && br.Res != nil {
+				sdkMeter = c.App.GetContextForFinalizeBlock(nil).BlockGasMeter().GasConsumed()
+				if _, err := c.App.Commit(); err != nil {
+					br.Err = err
+				}
+			}
+		})
 		height := c.Height
 		base := map[string]any{"level": "history", "variant": v, "case": label, "height": height, "fill_mode": mode,
 			"base_fee_in_force": inForce.String(), "floor_min_gas_price": w.minFloor.String(), "txs": describe()}
 		if cr.Panicked {
 			m := nextBaseFee(inForce, v.MaxGas, 0, w.minFloor)
-			cls := panicClass(cr.Msg, m)
+			cls := panicClass(cr.Msg, m, nil)
 			base["panic"], base["stack"] = cr.Msg, cr.Stack
 			base["note"] = "panic propagated out of BaseApp.FinalizeBlock; a node would crash on this block"
 			base["blocks_before"] = b
-			rep.violation(cls, label, base)
+			rep.violation("history/"+v.Name, cls, label, base)
 			run.Count("hist_chains_halted", 1)
 			run.Count("hist_finalize_panic["+cls+"]", 1)
 			w.halted = cls
@@ -696,7 +744,7 @@ func runHistory(run *vh.Run, rep *reporter, v histVariant, world int, nBlocks in
 		}
 		if br.Err != nil || br.Res == nil {
 			base["error"] = fmt.Sprint(br.Err)
-			rep.violation("finalize-block-error", label, base)
+			rep.violation("history/"+v.Name, "finalize-block-error", label, base)
 			run.Count("hist_chains_halted", 1)
 			return
 		}
@@ -707,6 +755,14 @@ func runHistory(run *vh.Run, rep *reporter, v histVariant, world int, nBlocks in
 
 		// ---- base fee of the next block ----
 		consumed := blockGasFromResults(br.Res.TxResults)
+		if consumed != sdkMeter {
+			// the harness' reading of the consensus results is off (or something other than baseapp.runTx
+			// charged the block meter): no verdict for this block, and the run is not allowed to pass
+			run.Count("hist_block_gas_recomputation_disagrees", 1)
+			run.Inconclusive(fmt.Sprintf("block gas recomputed from consensus results (%d) != SDK block gas meter (%d) at %s height %d", consumed, sdkMeter, label, height))
+			inForce = c.BaseFee()
+			continue
+		}
 		m := nextBaseFee(inForce, v.MaxGas, consumed, w.minFloor)
 		newBase := c.BaseFee()
 		evVal, evN := feeMarketEvent(br.Res.Events)
@@ -724,24 +780,33 @@ func runHistory(run *vh.Run, rep *reporter, v histVariant, world int, nBlocks in
 		}
 		if evN != 1 {
 			base["fee_market_events"] = evN
-			rep.violation("history-fee-market-event-count", label, base)
+			rep.violation("history/"+v.Name, "history-fee-market-event-count", label, base)
 		}
 		if m.Defined {
 			base["model"].(map[string]any)["expected_next_base_fee"] = m.Next.String()
-			if evN >= 1 && evVal != m.Next.String() {
-				rep.violation("history-basefee-mismatch:event"+suffix, label, base)
+			ok := func(s string) bool {
+				if s == m.Next.String() {
+					return true
+				}
+				alt := unlimitedReading(inForce, v.MaxGas, consumed, w.minFloor)
+				return alt != nil && s == alt.String()
 			}
-			if newBase.Cmp(m.Next) != 0 {
-				rep.violation("history-basefee-mismatch:param"+suffix, label, base)
+			if evN >= 1 && !ok(evVal) {
+				rep.violation("history/"+v.Name, "history-basefee-mismatch:event"+suffix, label, base)
+			}
+			if !ok(newBase.String()) || (evN >= 1 && evVal != newBase.String()) {
+				rep.violation("history/"+v.Name, "history-basefee-mismatch:param"+suffix, label, base)
 			}
 		} else {
 			run.Count("hist_zero_target_blocks_survived", 1)
 			if newBase.Sign() < 0 || newBase.Cmp(w.minFloor) < 0 || (evN >= 1 && evVal != newBase.String()) {
-				rep.violation("history-basefee-below-floor:zero-gas-target", label, base)
+				rep.violation("history/"+v.Name, "history-basefee-below-floor:zero-gas-target", label, base)
 			}
 		}
 		run.Count("hist_usage_"+m.Rel, 1)
-		run.Nontrivial("hist|" + maxGasClass(v.MaxGas) + "|" + m.Rel + "|" + baseClass(inForce) + "|" + minRelClass(v.MinGP, m))
+		ntKey := "hist|" + maxGasClass(v.MaxGas) + "|" + m.Rel + "|" + baseClass(inForce) + "|" + minRelClass(v.MinGP, m)
+		run.Nontrivial(ntKey)
+		run.Distinct("nontrivial_keys", ntKey)
 		if m.Clamped {
 			run.Count("hist_blocks_min_price_clamps", 1)
 		}
@@ -788,10 +853,10 @@ func runHistory(run *vh.Run, rep *reporter, v histVariant, world int, nBlocks in
 				return x
 			}
 			if admitted && strings.HasPrefix(rel, "below") {
-				rep.violation("underpriced-tx-admitted:"+p.Lane+":"+rel, label, wit())
+				rep.violation("history/"+v.Name, "underpriced-tx-admitted:"+p.Lane+":"+rel, label, wit())
 			}
 			if admitted && hasFee && (charged == nil || charged.Cmp(mulU(bound, p.Gas)) < 0) {
-				rep.violation("admitted-tx-charged-below-bound:"+p.Lane, label, wit())
+				rep.violation("history/"+v.Name, "admitted-tx-charged-below-bound:"+p.Lane, label, wit())
 			}
 			if admitted && p.Kind == "create" && res.Code == 0 {
 				ca := crypto.CreateAddress(p.Sender, p.Nonce)
@@ -800,9 +865,6 @@ func runHistory(run *vh.Run, rep *reporter, v histVariant, world int, nBlocks in
 			if !admitted && !strings.HasPrefix(rel, "below") {
 				reason := fmt.Sprintf("%s/%d", res.Codespace, res.Code)
 				run.Count("hist_tx_rejected_though_priced_ok["+reason+"]", 1)
-				if os.Getenv("C09_DEBUG") != "" && (res.Code == 41 || res.Code == 111222 || res.Code == 10) {
-					fmt.Printf("DEBUG %s h=%d i=%d %v code=%d log=%s\n", label, height, i, p.describe(), res.Code, trunc(res.Log, 300))
-				}
 			}
 		}
 		if b%17 == 3 && world == 0 {
